@@ -73,6 +73,14 @@ R2 = {
     "C11_7": "file-failure stream: an unparsable line after a prefix of good rules (failure WHILE reading)",
     "C05_7": "conditional-domain stream: link conditions registered / re-parameterised for other domains (g = _, _, _, (_, _))",
     "C13_7": "table-isolation stream: a built-in re-registered on ONE enforcer of the process, the others (built before / afterwards / model set again) must keep the documented pattern language (failing input instead of only a broken table tie)",
+    "C10_8": "a model whose first policy type has a priority field (ascending numbers) beside types without one, at enforcer level",
+    "C10_9": "policies holding the same rule twice in one type",
+    "C04_10": "reloads that leave a role definition without any rule while links existed before (auto-save off while granted / emptied store)",
+    "C09_10": "second-definition stream: management calls on p2 (incl. filtered update refused because a new rule is held outside the selection), store vs memory",
+    "C06_10": "a rule universe whose values contain the separator (different rules with equal comma-joined texts); added after reading the agent's report, before the first run",
+    "C14_7": "enforcer probe with the role manager replaced (set_named_role_manager / set_role_manager) BEFORE the matching function is registered, then one build_role_links",
+    "C14_9": "a matching function that is NOT reflexive on concrete names (only real prefix* patterns match) among the universes of the random histories",
+    "C17_8": "pattern setup: a role-name matching function with a scheduling point INSIDE it (reading calls create role objects for names seen for the first time), programs with two readers of the same unseen name",
     "C20_5": "AsyncEnforcer with a watcher whose operation-specific callbacks are plain functions; callbacks record malformed arguments instead of failing",
 }
 for sid in sorted(os.listdir(os.path.join(VERIF, "seeded"))):
